@@ -11,7 +11,7 @@ import (
 func init() {
 	reg("C30", Meta{
 		Technique:   "must-guard reachability on SSA for the cheque store write and the credit path, lockset analysis for the read-check-write window, provenance of the store key",
-		Explanation: "C30 (cheques), structural clauses: (G1) chequeStore.ReceiveCheque persists a cheque only behind recipient==this node, signature recovery succeeded, recovered issuer==stated beneficiary, and cumulative payout strictly above the stored one (amount>0 with amount = cheque.payout − last stored payout or 0); (Lk1) the read of the last cheque and the write of the new one both happen under the store lock with no release in between; (P1) both use the key built from the cheque's beneficiary; (G2) traffic.Service.ReceiveCheque hands a cheque to the store only behind `cheque.Beneficiary == chain address registered for the sending peer` and only credits transferChequeTraffic when the store accepted it. Not decided: the arithmetic identity total credited = highest accepted payout (follows from G1+Lk1 by reasoning, not checked), ECDSA recovery itself.",
+		Explanation: "C30 (cheques), structural clauses: (G1) chequeStore.ReceiveCheque persists a cheque only behind recipient==this node, signature recovery succeeded, recovered issuer==stated beneficiary, and cumulative payout strictly above the stored one (amount>0 with amount = cheque.payout − last stored payout or 0); (E1) the cheque is stored only when the last cheque was read successfully or is known absent (a swallowed read error would make the increase test run against zero); (Lk1) the read of the last cheque and the write of the new one both happen under the store lock with no release in between; (P1) both use the key built from the cheque's beneficiary; (G2) traffic.Service.ReceiveCheque hands a cheque to the store only behind `cheque.Beneficiary == chain address registered for the sending peer` and only credits transferChequeTraffic when the store accepted it. Not decided: the arithmetic identity total credited = highest accepted payout (follows from G1+Lk1 by reasoning, not checked), ECDSA recovery itself.",
 		Assumptions: []string{"crypto.RecoverEIP712 returns the signer's key", "StateStorer.Put is atomic per key"},
 	}, c30)
 }
